@@ -1,5 +1,5 @@
 (** * C14 — assets of a multi-asset market are independent books sharing one clock *)
-From Bourse Require Import Model.Types Model.Book Model.Obs Model.Rng Model.Env Spec.RefBook Proofs.EnvProps Proofs.Refine Proofs.Volumes Proofs.MarketInv.
+From Bourse Require Import Model.Types Model.Book Model.Obs Model.Rng Model.Env Spec.RefBook Proofs.EnvProps Proofs.Refine Proofs.Volumes Proofs.MarketInv Proofs.AssetProjection.
 
 (** A direct operation on asset [a] is the stand-alone book step on the a-th
     book and leaves every other book *equal*. *)
@@ -53,8 +53,40 @@ Theorem c14_per_asset_views_recomputed : forall L m a b,
   observe L b = ref_observe_tbl L (b_t b) (b_tick b) (b_tvol b) (map e_order (b_orders b)) (b_trades b).
 Proof. exact market_views_recomputed. Qed.
 
+(** Each asset's history through a step equals that of a stand-alone book fed that asset's
+    instructions - and only those - at the same times: [asset_run a] is a single book that has
+    its clock set to [start + i] before the i-th instruction of the batch and executes the
+    instruction only when it is addressed to asset [a]. *)
+Theorem c14_step_projects_to_standalone_books : forall L e g e' g',
+  menv_step L e g = Ok (e', g') ->
+  exists start q g1, market_time (en_market e) = Ok start /\ shuffle (en_queue e) g = Some (q, g1) /\
+    forall a b, nth_error (en_market e) a = Some b ->
+      exists b1, asset_run a start 0 (reset_trade_vol b) q = Ok b1 /\
+                 nth_error (en_market e') a = Some (set_time b1 (start + en_step e)).
+Proof. exact step_projects. Qed.
+
+Theorem c14_batch_projects_to_standalone_books : forall start a q i m m' b,
+  process_all start i m q = Ok m' -> nth_error m a = Some b ->
+  exists b', nth_error m' a = Some b' /\ asset_run a start i b q = Ok b'.
+Proof. exact (fun start a => process_all_projects start a). Qed.
+
+(** Non-vacuity: a two-asset batch; asset 1's book ends exactly where the stand-alone run ends. *)
+Example c14_projection_nonvacuous :
+  (do m <- market_new 0 [1; 5] true;
+   let q := [MNew 0 0; MNew 1 0; MNew 1 1] in
+   do m0 <- upd_nth m 0 (fun b => Ok (fst (create_order b Bid 3 1 (Some 10))));
+   do m1 <- upd_nth m0 1 (fun b => Ok (fst (create_order (fst (create_order b Ask 4 2 (Some 50))) Bid 2 3 (Some 50))));
+   do m2 <- process_all 100 0 m1 q;
+   do b1 <- match nth_error m1 1 with Some b => asset_run 1 100 0 b q | None => Panic end;
+   Ok (match nth_error m2 1 with Some b => (length (b_trades b), b_t b) | None => (0%nat, 0) end,
+       (length (b_trades b1), b_t b1)))
+  = Ok ((1%nat, 102), (1%nat, 102)).
+Proof. vm_compute. reflexivity. Qed.
+
 Check c14_direct_op_local.
 Print Assumptions c14_direct_op_local.
+Print Assumptions c14_step_projects_to_standalone_books.
+Print Assumptions c14_batch_projects_to_standalone_books.
 Print Assumptions c14_event_local.
 Print Assumptions c14_clock_shared.
 Print Assumptions c14_ids_per_asset.
